@@ -222,6 +222,127 @@ fn check(toks: &[Tok], l: &mut Local) {
     l.sample(|| json!({"tokens": render_tokens(toks, false, false), "reference": want}));
 }
 
+
+/// Long flat chains on one precedence level: `t0 op t1 op ... op tn` with the operators of one level
+/// (+ and -, or * and /). The documented grammar reads them left to right; the compiled objective's
+/// coefficients (which fix the value at every assignment) are compared with that reading.
+fn long_chain_cases() -> Vec<(usize, Vec<usize>, bool)> {
+    // (number of terms, positions of the second operator of the level (- or /), multiplicative)
+    let mut out = vec![];
+    for &n in &[8usize, 16, 31, 32, 33, 34, 35, 40] {
+        out.push((n, vec![], false));
+        for i in 1..n {
+            out.push((n, vec![i], false));
+            for j in i + 1..n {
+                out.push((n, vec![i, j], false));
+            }
+        }
+    }
+    for &n in &[48usize, 64, 65, 96, 128] {
+        out.push((n, vec![], false));
+        for i in 1..n {
+            out.push((n, vec![i], false));
+        }
+        for step in [2usize, 3, 5] {
+            for phase in 0..step {
+                out.push((n, (1..n).filter(|i| i % step == phase).collect(), false));
+            }
+        }
+        // two minus signs at the binary split points and next to them
+        for a in [n / 4, n / 2 - 1, n / 2, n / 2 + 1] {
+            for b in [n / 2 + 1, n / 2 + n / 4, n / 2 + n / 4 + 1, n - 2] {
+                if a < b {
+                    out.push((n, vec![a, b], false));
+                }
+            }
+        }
+    }
+    for &n in &[8usize, 16, 32, 33, 34, 40] {
+        out.push((n, vec![], true));
+        for i in 1..n {
+            out.push((n, vec![i], true));
+            for j in i + 1..n {
+                out.push((n, vec![i, j], true));
+            }
+        }
+    }
+    out
+}
+
+fn check_long_chain(n: usize, second: &[usize], mul: bool, l: &mut Local) {
+    use rooc::Linearizer;
+    let vars = ["x", "y", "z"];
+    let mut text = String::new();
+    // reference: left-to-right reading
+    let mut want: std::collections::BTreeMap<&str, f64> = vars.iter().map(|v| (*v, 0.0)).collect();
+    let mut want_const = 0.0f64;
+    let mut factor = 1.0f64;
+    for i in 0..n {
+        let is_second = second.contains(&i);
+        if mul {
+            // x * 2 / 2 * 2 ...: the first term is the variable, the others the constant 2 (dyadic: exact in f64)
+            if i == 0 {
+                text.push('x');
+            } else {
+                text.push_str(if is_second { " / 2" } else { " * 2" });
+                factor = if is_second { factor / 2.0 } else { factor * 2.0 };
+            }
+        } else {
+            if i > 0 {
+                text.push_str(if is_second { " - " } else { " + " });
+            }
+            let sign = if is_second { -1.0 } else { 1.0 };
+            if i % 7 == 6 {
+                text.push('1');
+                want_const += sign;
+            } else {
+                let v = vars[(i + i / 5) % 3];
+                text.push_str(v);
+                *want.get_mut(v).unwrap() += sign;
+            }
+        }
+    }
+    if mul {
+        // keep the factor within exactly representable range (it is by construction for n <= 40: 2^-39 .. 2^39)
+        *want.get_mut("x").unwrap() = factor;
+    }
+    l.count("long_chains");
+    l.nontrivial(&(n, second.len(), mul, second.first().copied()));
+    for (pos, src) in [
+        ("top-level", format!("min {text}\ns.t.\n    x >= 0\ndefine\n    x, y, z as Real\n")),
+        ("parenthesised", format!("min 2({text})\ns.t.\n    x >= 0\ndefine\n    x, y, z as Real\n")),
+    ] {
+        let scale = if pos == "parenthesised" { 2.0 } else { 1.0 };
+        let case = |got: String| json!({"source": src, "terms": n, "second_operator_positions": second, "reference": format!("{want:?} + {want_const}"), "rooc": got, "position": pos});
+        let sig = |k: &str| format!("long-chain:{}:{k}", if mul { "mul-div" } else { "add-sub" });
+        let res = crate::core::catch(|| {
+            let m = RoocParser::new(src.clone()).parse_and_transform(vec![], &IndexMap::new()).map_err(|e| e.to_string())?;
+            Linearizer::linearize(m).map_err(|e| e.to_string())
+        });
+        match res {
+            Err(p) => l.violation(sig("panic"), format!("{n}-term chain panics: {p}"), case("panic".into())),
+            Ok(Err(e)) => l.violation(sig("rejected"), format!("{n}-term chain is rejected: {}", e.lines().next().unwrap_or("")), case(e.clone())),
+            Ok(Ok(lin)) => {
+                let obj = lin.objective();
+                let mut bad = None;
+                for (name, c) in lin.variables().iter().zip(obj.iter()) {
+                    let w = want.get(name.as_str()).copied().unwrap_or(0.0) * scale;
+                    if (c - w).abs() > 1e-9 * w.abs().max(1.0) {
+                        bad = Some(format!("coefficient of {name} is {c}, left-to-right reading gives {w}"));
+                    }
+                }
+                let off = lin.objective_offset();
+                if (off - want_const * scale).abs() > 1e-9 {
+                    bad = Some(format!("constant term is {off}, left-to-right reading gives {}", want_const * scale));
+                }
+                if let Some(b) = bad {
+                    l.violation(sig("wrong-value"), format!("{n}-term chain with the second operator at {second:?} ({pos}): {b}"), case(format!("{:?} + {off}", obj)));
+                }
+            }
+        }
+    }
+}
+
 /// (parent op, child op, side) of the first same-or-lower precedence nesting: the call-site of a grouping defect
 fn shape_signature(a: &Ast) -> String {
     fn find(a: &Ast) -> Option<String> {
@@ -250,12 +371,19 @@ pub fn run(mut run: Run) -> ! {
     crate::core::silence_panics();
     let max_len = if run.quick() { 7 } else { 8 };
     let seqs = Arc::new(gen_all(max_len, &["a", "b", "x"], &["2"]));
-    run.rule = format!("all well-formed token sequences of length <= {max_len} over operands {{a,b,x,2}}, 9 binary operators, prefix - and not, parentheses and implicit multiplication (number|parenthesis)+ variable?, generated by a grammar-directed DFS (complete over well-formed sequences); each is rendered with keywords, with symbolic aliases, with/without whitespace with identifiers that start with a keyword and with identifiers that look like a decimal exponent (e, e1, E2) glued to a number, and with fractional literals, in objective and constraint position; distinct = reference tree shapes");
+    run.rule = format!("all well-formed token sequences of length <= {max_len} over operands {{a,b,x,2}}, 9 binary operators, prefix - and not, parentheses and implicit multiplication (number|parenthesis)+ variable?, generated by a grammar-directed DFS (complete over well-formed sequences); each is rendered with keywords, with symbolic aliases, with/without whitespace with identifiers that start with a keyword and with identifiers that look like a decimal exponent (e, e1, E2) glued to a number, and with fractional literals, in objective and constraint position; plus long flat chains on one level (8..128 terms of + and -, 8..40 factors of * and /, the second operator of the level at every single position and every pair of positions up to 40 terms, periodic patterns and split-point pairs beyond), compiled at top level and under a parenthesised factor and compared by objective coefficients with the left-to-right reading; distinct = reference tree shapes");
     run.assume("reference: precedence climbing with one prefix operator per leaf binding tightest, * / > + - > and > xor > or > {implies right, iff left} on one level, implicit multiplication forming one left-folded factor; shapes (not only values) are compared, which is stronger than the property");
     let s2 = seqs.clone();
     run.family(&format!("token-sequences-len<={max_len}"), seqs.len() as u64, move |i, l| {
         check(&s2[i as usize], l);
     });
+    let chains = Arc::new(long_chain_cases());
+    let c2 = chains.clone();
+    run.family("long-flat-chains", chains.len() as u64, move |i, l| {
+        let (n, second, mul) = &c2[i as usize];
+        check_long_chain(*n, second, *mul, l);
+    });
+    run.require("long_chains");
     run.require("parses");
     run.require("compiled");
     run.require("sequences_with_two_or_more_binary_ops");
